@@ -17,6 +17,9 @@ CONSTANTS
   MaxSteps = 0
   StepCap <- Cap1
   EmitDyn = FALSE
+  MaxHist = 0
+  MaxReorders = 0
+  UnitCfgs <- UnitsNone
   Times <- TimesA
   Tol <- TolA
 INVARIANT TypeOK
